@@ -25,7 +25,7 @@ def run(ctx: CheckContext):
     analyse(ctx, p)
     ctx.floor("WRAP", 4)
     ctx.floor("PAIR-1", 3)
-    ctx.floor("ACC", 8)
+    ctx.floor("ACC", 7)
     ctx.assumptions += [
         "decides index wrap-around of the per-side segment, booking of every assigned duty and alignment of the per-utility zone sums; whether a utility can reach the process "
         "temperatures, default-utility placement and the pocket-free profile's values are numeric and NOT decided",
